@@ -112,6 +112,12 @@ func checkGffReader(c *Ctx, parse *ssa.Function) {
 	ptb := view.tb[parse]
 	lines := `call[strings.Split](conv[string](param[0]), const["\n"])`
 	line := "each(" + lines + ")"
+	// the line being parsed, by role: whatever is split at tabs
+	view.each(func(g *ssa.Function, i ssa.Instruction) {
+		if cl, ok := i.(*ssa.Call); ok && calleeName(cl) == "strings.Split" && view.T(g, cl.Call.Args[1]).isConst(`"\t"`) {
+			line = view.T(g, cl.Call.Args[0]).String()
+		}
+	})
 	fields := `call[strings.Split](` + line + `, const["\t"])`
 	fld := func(k int) string { return fmt.Sprintf("index(%s, const[%d])", fields, k) }
 	af, n := findCall(parse, "(*poly.Sequence).AddFeature")
